@@ -204,7 +204,7 @@ GetRes(id) ==
 
 \* Get(ctx, id) returned (ok, vector v, payload p)
 GetMatches(id, ok, v, p) == id \in Ids /\ GetRes(id) = [ok |-> ok, v |-> v, p |-> p]
-Get(id, ok, v, p) == ~broken /\ GetMatches(id, ok, v, p) /\ UNCHANGED vars
+Get(id, ok, v, p) == ~broken /\ (GetMatches(id, ok, v, p) = TRUE) /\ UNCHANGED vars
 
 \* what a query may score: non-nil TempVectors values when the buffer is open (brute force),
 \* otherwise the non-tombstone entries of the probed centroids (any of them)
@@ -217,23 +217,31 @@ Cands ==
 
 \* ... of which the hits are those whose Content record is not Deleted and whose payload passes the filter
 \* (f = 0: no filter, f > 0: tag = f), taken in descending score order until there are k
-Eligible(f) == {c \in Cands : content[c.id].st = "live" /\ (f = 0 \/ content[c.id].p = f)}
+EligibleOf(C, f) == {c \in C : content[c.id].st = "live" /\ (f = 0 \/ content[c.id].p = f)}
+Eligible(f) == EligibleOf(Cands, f)
 
 HitOf(q, c) == [id |-> c.id, sd |-> Dot(q, c.v), p |-> content[c.id].p]
 
-\* hits (sequence of [id, sd, p]; sd = score * NormSq) is a possible result of Query(q, k, filter f)
-QueryValid(q, k, f, hits) ==
-  LET n == Len(hits) IN
-  /\ n <= k
-  /\ \A i \in 1..n :
-        /\ \E c \in Eligible(f) : HitOf(q, c) = hits[i]
-        /\ Cardinality({j \in 1..n : hits[j] = hits[i]}) <= Cardinality({c \in Eligible(f) : HitOf(q, c) = hits[i]})
-  /\ \A i \in 1..(n - 1) : hits[i].sd >= hits[i + 1].sd
+\* hits (sequence of [id, sd, p]; sd = score * NormSq) is a possible result of Query(q, k, filter f) over the
+\* candidates C: each hit is an eligible candidate with its score, no candidate is used twice, scores do not increase
+QueryValidOver(C, q, k, f, hits) ==
+  LET n == Len(hits)
+      E == EligibleOf(C, f)
+      H == {HitOf(q, c) : c \in E}
+  IN  /\ n <= k
+      /\ \A i \in 1..n : hits[i] \in H
+      /\ IF \A i, j \in 1..n : i < j => hits[i] # hits[j] THEN TRUE
+         ELSE \A i \in 1..n : Cardinality({j \in 1..n : hits[j] = hits[i]})
+                                  <= Cardinality({c \in E : HitOf(q, c) = hits[i]})
+      /\ \A i \in 1..(n - 1) : hits[i].sd >= hits[i + 1].sd
+QueryValid(q, k, f, hits) == QueryValidOver(Cands, q, k, f, hits)
 
-QueryMatches(q, k, f, ok, hits) ==
+QueryMatchesOver(C, q, k, f, ok, hits) ==
   /\ ok = TRUE /\ q \in 1..Len(VecTable) /\ k >= 0 /\ f \in 0..NP
-  /\ QueryValid(q, k, f, hits)
-Query(q, k, f, ok, hits) == ~broken /\ QueryMatches(q, k, f, ok, hits) /\ UNCHANGED vars
+  /\ QueryValidOver(C, q, k, f, hits)
+QueryMatches(q, k, f, ok, hits) == QueryMatchesOver(Cands, q, k, f, ok, hits)
+\* (= TRUE: evaluated as a value; TLC would otherwise split an action on every disjunction inside the predicate)
+Query(q, k, f, ok, hits) == ~broken /\ (QueryMatches(q, k, f, ok, hits) = TRUE) /\ UNCHANGED vars
 
 -----------------------------------------------------------------------------
 (* C33 *)
@@ -264,9 +272,10 @@ Results(q, k, f) ==
 QueryOK == \A q \in Vecs, k \in Ks, f \in 0..NP : \A hits \in Results(q, k, f) : HitsOK(q, k, f, hits)
 
 \* the structural reason: whatever a query may score is the latest version of a live item, once
-IndexOK == /\ \A c \in Cands : content[c.id].st = "live" =>
+IndexOK == LET C == Cands IN
+           /\ \A c \in C : content[c.id].st = "live" =>
                  /\ want[c.id].live /\ c.v = want[c.id].v /\ content[c.id].p = want[c.id].p
-           /\ \A c, d \in Cands : (c.id = d.id /\ content[c.id].st = "live") => c = d
+           /\ \A c, d \in C : (c.id = d.id /\ content[c.id].st = "live") => c = d
            /\ \A i \in Ids : (content[i].st = "live") <=> want[i].live
 
 \* optimization never loses, duplicates or resurrects items: it changes nothing a client can see
